@@ -54,14 +54,6 @@ structure SaveInfo where
   rows : List XRef      -- /Index [0 rows.length]
 deriving Repr, DecidableEq
 
-/-- parameters of the value type -/
-structure Params (V : Type) where
-  /-- `Primitive::serialize` succeeds -/
-  ok : V → Bool
-  /-- the value `fulfill(xref_promise, stream)` leaves in `changes` after a save: the cross-reference
-      stream (`Stream<XRefInfo>` without the trailer entries) of that save -/
-  xrefVal : SaveInfo → V
-
 /-- one `id gen obj … endobj` in the backend -/
 structure Obj (V : Type) where
   off : Nat            -- absolute offset of the first digit of `id`
@@ -77,6 +69,18 @@ structure Trailer (V : Type) where
   info : Option V      -- `info_dict` (`#[pdf(indirect)]`: written as a new object by every `to_dict`)
   prev : Option Nat
 deriving Repr
+
+/-- parameters of the value type -/
+structure Params (V : Type) where
+  /-- `Primitive::serialize` succeeds -/
+  ok : V → Bool
+  /-- the value `fulfill(xref_promise, stream)` leaves in `changes` after a save: the cross-reference
+      stream (`Stream<XRefInfo>` without the trailer entries) of that save -/
+  xrefVal : SaveInfo → V
+  /-- the cross-reference stream object as it stands in the file: the same stream with the trailer entries
+      (`/Size /Prev /Root /Info /ID`) merged into its dictionary; arguments: the trailer, the number of the
+      info object written by this save -/
+  xrefRec : Trailer V → Option Nat → SaveInfo → V
 
 /-- one cross-reference section in the backend (classic table or stream) with its trailer -/
 structure Sec where
@@ -318,7 +322,7 @@ def saveInfoOf (pr : Prep V) (w : Written V) (refs rows : List XRef) : SaveInfo 
 def commit (P : Params V) (L : Layout) (d : Doc V) (pr : Prep V) (w : Written V) (refs rows : List XRef) : St V :=
   { pr.st2 with
       refs := refs, changes := chInsert pr.st2.changes pr.xid (P.xrefVal (saveInfoOf pr w refs rows), 0), cache := [],
-      objs := w.objs ++ [⟨w.len, pr.xid, 0, P.xrefVal (saveInfoOf pr w refs rows), []⟩],
+      objs := w.objs ++ [⟨w.len, pr.xid, 0, P.xrefRec d.tr pr.infoRef (saveInfoOf pr w refs rows), []⟩],
       secs := pr.st2.secs ++ [⟨w.len, [⟨0, rows⟩], pr.size, d.tr.prev, d.tr.root, pr.infoRef⟩],
       len := w.len + L.xrefLen (saveInfoOf pr w refs rows) + L.tailLen (saveInfoOf pr w refs rows),
       startxref := w.len - pr.st2.start }
@@ -489,7 +493,7 @@ def saveOld (P : Params V) (L : Layout) (d : Doc V) : Doc V × Out SaveInfo :=
       let (aw, bw) := widths refs
       let sec : Sec := ⟨w.len, [⟨0, rows⟩], size, d.tr.prev, d.tr.root, infoRef⟩
       let xinfo : SaveInfo := ⟨xid, xpos, size, aw, bw, rows⟩
-      let xobj : Obj V := ⟨w.len, xid, 0, P.xrefVal xinfo, []⟩
+      let xobj : Obj V := ⟨w.len, xid, 0, P.xrefRec d.tr infoRef xinfo, []⟩
       let st3 : St V :=
         { st2 with refs := refs, changes := chInsert st2.changes xid (P.xrefVal xinfo, 0), cache := [],
                    objs := w.objs ++ [xobj], secs := st2.secs ++ [sec],
